@@ -13,6 +13,10 @@ CLAIMED = {
          "For every polynomial: each table entry equals the bitwise remainder of its byte (outer generator loop under a loop contract with a ghost witness index, entry compared with the definition at write time by the A_VERIF_HOOK site, inner 8-step loop unwound completely); for all (poly, value, byte) the table byte step equals 8 bit-by-bit division steps, and the MSB-/LSB-first bit steps are mirror images; for every buffer length <= 2^32 each a_crcNN / a_hash_* result equals the ghost left fold of the reference step over exactly the bytes of the buffer (DFCC function contract + loop contract), the string forms folding up to the first NUL. Whole-message equality with bitwise division, chunking and string/length agreement follow by two-line paper lemmas (fold congruence / concatenation).",
          "trusted: cbmc 6.11.0, LP64; assumed: paper lemmas composing table+step+fold, ghost witness = universal quantifier, buffers <= 2^32 bytes",
          "contract-based deductive verification with CBMC: DFCC function contracts, loop contracts, ghost-fold hooks", "5/C17"),
+ "C18": ("proof",
+         "Encoder: for all 2^32 arguments the length is the UTF-8 table's, exactly that many bytes are written (exact-size block + ghost witness byte), byte shapes and payload are right. Decoder: DFCC contract on an arbitrary fresh block of exactly min(num,6) bytes with arbitrary num - no read outside it, result <= num, <= 6, trailing byte is a continuation byte, 0xFE/0xFF refused; both output modes agree. Round trip for every code point 1..2^31-1 and refusal of every proper prefix (loop-free after unwinding the <=7-step loops completely). a_utf_length under a loop contract with the decoder replaced by its contract and ghost call bookkeeping: one increment per accepted sequence, stop offset = sum of reported lengths <= num, stops when the decoder refuses.",
+         "trusted: cbmc 6.11.0, LP64; a_utf_length_: read bound not decided (see evidence assumptions); buffers <= 2^32 bytes",
+         "contract-based deductive verification with CBMC: DFCC function contracts (enforce + replace), loop contracts, complete unwinding of width-bounded loops", "5/C18"),
 }
 
 PENDING_REASON = "check not built yet in this session (work in progress; see DESIGN.md section 5 for the planned contracts)"
